@@ -3,6 +3,7 @@ mod proto;
 mod configeng;
 mod persist;
 mod qcache;
+mod ratelimit;
 mod shim;
 mod store;
 mod tiered;
@@ -15,6 +16,7 @@ fn main() {
         Some("store") => store::run(),
         Some("persist") => persist::run(),
         Some("config") => configeng::run(),
+        Some("ratelimit") => ratelimit::run(),
         _ => {
             eprintln!("usage: kvh <engine>");
             std::process::exit(2);
